@@ -69,9 +69,11 @@ func ext4FeatTag(tag string) []ext4.FeatureOpt {
 }
 
 func ext4Configs(quick bool) []fatCfg {
+	// (the first configuration gets the prepared-state scenarios in the quick tier: it is the one WITHOUT metadata_csum,
+	// because with metadata_csum every extent tree deeper than the inode is a known finding that ends the exploration)
 	cs := []fatCfg{
-		{Type: 4, Size: 1 << 20, Start: 0, E4SectorsPerBlock: 2},
-		{Type: 4, Size: 2 << 20, Start: 1 << 20, E4SectorsPerBlock: 2, E4NoCsum: true},
+		{Type: 4, Size: 1 << 20, Start: 0, E4SectorsPerBlock: 2, E4NoCsum: true},
+		{Type: 4, Size: 2 << 20, Start: 1 << 20, E4SectorsPerBlock: 2},
 	}
 	if !quick {
 		cs = append(cs,
@@ -129,6 +131,20 @@ func ext4Scenarios(cfg fatCfg, oracle string, depth int, quick bool) []*fatScen 
 		{Kind: "create", Path: nm("d", 255) + "/" + nm("e", 250)}, {Kind: "symlink", Path: nm("l", 252), Path2: nm("c", 255)},
 		{Kind: "remove", Path: nm("b", 248)}, {Kind: "remove", Path: nm("c", 255)}, {Kind: "create", Path: "short"}, {Kind: "reopen"}}
 	out = append(out, &fatScen{Name: "names", Cfg: cfg, Letters: ln, Depth: depth, Oracle: oracle})
+	// dirshrink: a directory whose second block holds just two entries; removing them empties that block (the library turns
+	// it into an empty, checksummed filler block), then the directory is listed, re-opened and grown again
+	var pds []fsOp
+	pds = append(pds, fsOp{Kind: "mkdir", Path: "s"})
+	nds := 26
+	if cfg.E4SectorsPerBlock >= 8 {
+		nds = 100
+	}
+	for i := 0; i < nds; i++ {
+		pds = append(pds, fsOp{Kind: "create", Path: fmt.Sprintf("s/entry-with-a-long-name-%03d.dat", i)})
+	}
+	lds := []fsOp{{Kind: "remove", Path: fmt.Sprintf("s/entry-with-a-long-name-%03d.dat", nds-1)}, {Kind: "remove", Path: fmt.Sprintf("s/entry-with-a-long-name-%03d.dat", nds-2)}, {Kind: "remove", Path: fmt.Sprintf("s/entry-with-a-long-name-%03d.dat", nds-3)},
+		{Kind: "remove", Path: "s/entry-with-a-long-name-000.dat"}, {Kind: "create", Path: "s/new-entry-with-a-long-name.dat"}, {Kind: "mkdir", Path: "s/sub"}, {Kind: "reopen"}}
+	out = append(out, &fatScen{Name: "dirshrink", Cfg: cfg, Prefix: pds, Letters: lds, Depth: depth, Oracle: oracle})
 	return out
 }
 
@@ -404,6 +420,15 @@ func (s *fatSys) e2fsckViols(after string) (viols []explore.Viol) {
 		key = key[:3]
 	}
 	sig := "e2fsck|" + strings.Join(key, "|") + "|after=" + after
+	if !s.cfg.E4NoCsum {
+		for _, p := range probs {
+			if strings.Contains(p, "checksum does not match extent") {
+				// one class whatever the scenario and the operation: with metadata_csum the library writes extent-tree
+				// blocks without their checksum tail
+				return []explore.Viol{{Sig: "@e2fsck|metadata_csum|extent-block-without-checksum", Msg: fmt.Sprintf("%s after %s: e2fsck -f -n complains: %s", s.cfg, after, strings.Join(probs, "; "))}}
+			}
+		}
+	}
 	if after == "create" && s.cfg.E4Feat != "" {
 		// a feature set whose freshly created image is not clean is one finding, whatever geometry shows it
 		sig = "e2fsck|create-not-clean"
